@@ -49,13 +49,28 @@ func c11ParWorker() {
 		if i%2 == 1 {
 			route = "/m" // behind a script middleware
 		}
-		return c11NewRequest(fmt.Sprintf("%s/%d", route, i), fmt.Sprintf("q%d", i), fmt.Sprintf("&n=%d", i%23))
+		// every request carries a form key of its own (u<i>), so the key SETS of two requests differ
+		return c11NewRequest(fmt.Sprintf("%s/%d", route, i), fmt.Sprintf("q%d", i), fmt.Sprintf("&n=%d&u%d=1", i%23, i%5))
 	}
 	alone := make([]string, nreq)
 	for i := 0; i < nreq; i++ {
 		rec := httptest.NewRecorder()
 		mux.ServeHTTP(rec, mkReq(i))
 		alone[i] = render(rec)
+	}
+	emit := func(m kf.Mismatch) {
+		b, _ := json.Marshal(m)
+		fmt.Println("MISMATCH " + string(b))
+	}
+	// the alone run is itself checked against the request: $req->all() holds exactly gw, pw, n and u<i>
+	allOK := func(i int, body string) bool {
+		return i%2 == 1 || strings.Contains(body, fmt.Sprintf(";all=4:q%dG;", i))
+	}
+	for i, nb := 0, 0; i < nreq && nb < 10; i++ {
+		if !allOK(i, alone[i]) {
+			nb++
+			emit(kf.Mismatch{ID: "C11/alone/route=plain/kind=request-all", Expected: fmt.Sprintf("all=4:q%dG (the request's own keys gw, pw, n, u%d)", i, i%5), Observed: alone[i], ObsKey: "request-all", Input: i})
+		}
 	}
 	par := make([]string, nreq)
 	pans := make([]any, nreq)
@@ -74,10 +89,6 @@ func c11ParWorker() {
 		}(i)
 	}
 	wg.Wait()
-	emit := func(m kf.Mismatch) {
-		b, _ := json.Marshal(m)
-		fmt.Println("MISMATCH " + string(b))
-	}
 	bad := 0
 	for i := 0; i < nreq && bad < 30; i++ {
 		route := []string{"plain", "middleware"}[i%2]
@@ -193,7 +204,11 @@ $server->post('/w/{id}', function ($req, $res) {
   $res->status(200 + ($n % 7));
   $res->header('X-Id', $id);
   $res->header('X-Echo', $req->header('X-Who'));
-  $res->write("id=" . $id . ";n=" . $n . ";tot=" . $tot . ";sum=" . $acc->sum() . ";fib=" . fib($n % 12) . ";in=" . $req->input('pw') . ";");
+  // the merged input of THIS request read through the request object: number of keys and one value
+  $all = $req->all();
+  $c = 0;
+  foreach ($all as $k => $v) { $c = $c + 1; }
+  $res->write("id=" . $id . ";n=" . $n . ";tot=" . $tot . ";sum=" . $acc->sum() . ";fib=" . fib($n % 12) . ";in=" . $req->input('pw') . ";all=" . $c . ":" . $all->gw . ";");
 });
 // the same handler behind a script middleware that writes before and after the handler
 $server->middleware(function ($req, $res, $next) {
